@@ -111,6 +111,20 @@ def _check_read_raw_order(run, mod, Q, fn, cfg, ys, sel):
     D = Dtr0Sym(cfg, ys, lambda y: label(y, sel))
     reads = [y for y in ys if label(y, sel) == "ReadMemoryLocation"]
     run.floor("read_raw ReadMemoryLocation yields", len(reads), 1)
+    # the symbolic tracker follows a selection of the form `<location
+    # address> != <local tracker>`; a DTR0 load decided by data computed
+    # beforehand (a table of flags zipped with the locations) relates two
+    # sequences element by element, which it cannot follow
+    for y in ys:
+        if label(y, sel) != "DTR0":
+            continue
+        for (l_, p_) in y.node.pred:
+            if p_.kind == "test" and ".address" not in unparse(p_.ast) \
+                    and "dtr0" not in unparse(p_.ast).lower():
+                raise AnalysisError(
+                    "%s: the DTR0 load is guarded by `%s`, which is not a "
+                    "comparison of the location's address with a tracker "
+                    "the rule can follow" % (Q, unparse(p_.ast)))
     for y in reads:
         run.ob("R-MEMR-ORDER", Q + "#DTR1-before-read",
                W.must(y.node, "dtr1"),
